@@ -244,13 +244,20 @@ Definition has_label_locationb (s : shape) : bool :=
   | _ => true
   end.
 
-(** a shape in range: coordinates in i32; a path has at least two points, is Manhattan and its
-    width fits i32; a polygon is simple (Geom/ContainsSpec.simpleb) *)
+(** no two consecutive points coincide (no segment of zero length) *)
+Fixpoint no_repeatb (ps : list point) : bool :=
+  match ps with
+  | a :: (b :: _) as r => negb (point_eqb a b) && no_repeatb r
+  | _ => true
+  end.
+(** a shape in range: coordinates in i32; a path has at least two points, is Manhattan, has no
+    segment of zero length and its width fits i32; a polygon is simple (Geom/ContainsSpec.simpleb) *)
 Definition shape_okb (s : shape) : bool :=
   match s with
   | Rect p0 p1 => point_i32b p0 && point_i32b p1
   | Polygon ps => forallb point_i32b ps && CS.simpleb (map spt ps)
-  | Path ps w => forallb point_i32b ps && Nat.leb 2 (List.length ps) && manhattanb ps && (0 <=? w) && i32_okb w
+  | Path ps w => forallb point_i32b ps && Nat.leb 2 (List.length ps) && manhattanb ps && no_repeatb ps &&
+                 (0 <=? w) && i32_okb w
   end.
 (** a shape that carries a net: additionally it has a label location *)
 Definition named_shape_okb (s : shape) : bool := shape_okb s && has_label_locationb s.
@@ -345,12 +352,16 @@ Definition views_of (L : library) : list (list velem) :=
                      | Some (_, ev) => [ev]
                      | None => []
                      end) (lib_cells L).
-Definition unambiguous_view (lab : shape -> option point) (ev : list velem) : Prop :=
+Definition unambiguous_view_gen (region : shape -> point -> Prop) (lab : shape -> option point) (ev : list velem) : Prop :=
   forall v n p v', In v ev -> v_net v = Some n -> lab (v_shape v) = Some p ->
-    In v' ev -> v_lnum v' = v_lnum v -> in_region_shape (v_shape v') p ->
+    In v' ev -> v_lnum v' = v_lnum v -> region (v_shape v') p ->
     option_map lower (v_net v') = Some (lower n).
+Definition unambiguous_view := unambiguous_view_gen in_region_shape.
 Definition labels_unambiguous_at (lab : shape -> option point) (L : library) : Prop :=
   Forall (unambiguous_view lab) (views_of L).
+(** the same with the non-zero-winding region for polygons *)
+Definition labels_unambiguous_nz_at (lab : shape -> option point) (L : library) : Prop :=
+  Forall (unambiguous_view_gen in_region_shape_nz lab) (views_of L).
 
 Definition unambiguous_viewb (lab : shape -> option point) (ev : list velem) : bool :=
   forallb (fun v =>
